@@ -76,6 +76,22 @@ struct Scenario {
     spec: NodeSpec,
     masters: Vec<MasterSpec>,
     prior: Vec<u8>, // 0 listening, 1 master via timeout, 2 via round 1, 3 faulty (p2p)
+    /// P2P ports that turn Faulty only after the round-2 Announces were received (just before the BMCA run)
+    late_fault: Vec<bool>,
+}
+
+fn make_faulty(w: &mut World, spec: &NodeSpec, p: usize, ch: &mut Chooser) {
+    // two responders answer one Pdelay request
+    w.keep_emitted = true;
+    w.host_call(0, p, HostCall::Timer(T_DELAY), ch);
+    let seq = w.emitted.iter().rev().find_map(|e| Frame::decode(&e.bytes).ok().filter(|f| f.hdr.msg_type == MsgType::PdelayReq).map(|f| f.hdr.seq)).unwrap_or(0);
+    w.keep_emitted = false;
+    w.emitted.clear();
+    let own = Pid::new(spec.id, (p + 1) as u16);
+    for r in 0..2u8 {
+        let f = Frame::new(MsgType::PdelayResp, Pid::new([0xee, r, 0, 0, 0, 0, 0, 1], 1), seq, Body::PdelayResp { request_receipt: Ts { secs: 1_700_000_000, nanos: 5 }, requesting: own });
+        w.host_call(0, p, HostCall::RxEvent(Rc::new(f.encode()), (1_700_000_000u128 * 1_000_000_000 + 1000) << 32), ch);
+    }
 }
 
 fn execute(sc: &Scenario, order2: &[usize], ch: &mut Chooser) -> (Outcome, Vec<PState>, World) {
@@ -89,19 +105,7 @@ fn execute(sc: &Scenario, order2: &[usize], ch: &mut Chooser) -> (Outcome, Vec<P
             1 => {
                 w.host_call(0, p, HostCall::Timer(T_RECEIPT), ch);
             }
-            3 => {
-                // two responders answer one Pdelay request
-                w.keep_emitted = true;
-                w.host_call(0, p, HostCall::Timer(T_DELAY), ch);
-                let seq = w.emitted.iter().rev().find_map(|e| Frame::decode(&e.bytes).ok().filter(|f| f.hdr.msg_type == MsgType::PdelayReq).map(|f| f.hdr.seq)).unwrap_or(0);
-                w.keep_emitted = false;
-                w.emitted.clear();
-                let own = Pid::new(sc.spec.id, (p + 1) as u16);
-                for r in 0..2u8 {
-                    let f = Frame::new(MsgType::PdelayResp, Pid::new([0xee, r, 0, 0, 0, 0, 0, 1], 1), seq, Body::PdelayResp { request_receipt: Ts { secs: 1_700_000_000, nanos: 5 }, requesting: own });
-                    w.host_call(0, p, HostCall::RxEvent(Rc::new(f.encode()), (1_700_000_000u128 * 1_000_000_000 + 1000) << 32), ch);
-                }
-            }
+            3 => make_faulty(&mut w, &sc.spec, p, ch),
             _ => {}
         }
     }
@@ -122,7 +126,6 @@ fn execute(sc: &Scenario, order2: &[usize], ch: &mut Chooser) -> (Outcome, Vec<P
     if any_r1 {
         w.run_bmca(0, ch);
     }
-    let prior_states = w.nodes[0].states();
     // round 2: every master delivers two Announces, interleaved as given by `order2`
     // (order2 lists master indices, each exactly twice)
     for &mi in order2 {
@@ -131,6 +134,13 @@ fn execute(sc: &Scenario, order2: &[usize], ch: &mut Chooser) -> (Outcome, Vec<P
         seqs[mi] = seqs[mi].wrapping_add(1);
         w.host_call(0, m.port, HostCall::RxGeneral(Rc::new(f.encode())), ch);
     }
+    for p in 0..np {
+        if sc.late_fault[p] {
+            make_faulty(&mut w, &sc.spec, p, ch);
+        }
+    }
+    // the states the decision has to start from are those right before the BMCA run
+    let prior_states = w.nodes[0].states();
     w.run_bmca(0, ch);
     let node = &w.nodes[0];
     let pd = node.inst.parent_ds();
@@ -164,13 +174,15 @@ impl Check for C05 {
         spec.time_props = TimePropsSpec { utc_offset: Some(37), leap: 0, time_traceable: true, freq_traceable: false, ptp_timescale: true, time_source: 0x20 };
         spec.ports.clear();
         let mut prior = Vec::new();
+        let mut late_fault = Vec::new();
         for _ in 0..np {
             let mut ps = PortSpec::default();
             ps.filter = FilterKind::Basic(0.25);
             ps.forward_tlvs = false;
             ps.master_only = !spec.slave_only && ch.chance(S_CFG, 1, 5);
             let pr = ch.weighted(S_CFG, &[4, 2, 3, 1]) as u8;
-            ps.p2p = pr == 3;
+            ps.p2p = pr == 3 || ch.chance(S_CFG, 1, 5);
+            late_fault.push(ps.p2p && pr != 3 && ch.chance(S_CFG, 1, 2));
             prior.push(if pr == 1 && spec.slave_only { 0 } else { pr });
             spec.ports.push(ps);
         }
@@ -198,7 +210,7 @@ impl Check for C05 {
                 prior[p] = 0;
             }
         }
-        let sc = Scenario { spec: spec.clone(), masters: masters.clone(), prior: prior.clone() };
+        let sc = Scenario { spec: spec.clone(), masters: masters.clone(), prior: prior.clone(), late_fault: late_fault.clone() };
         // two interleavings of the round-2 deliveries
         let mut base: Vec<usize> = (0..nm).flat_map(|i| [i, i]).collect();
         let order_a = base.clone();
